@@ -539,6 +539,10 @@ func (w *World) act(rs *reqState, id string, c *rux.Context, a Action) {
 		c.Set(a.S, a.V)
 	case "adderr":
 		c.AddError(errors.New(a.S))
+	case "adderrn": // many errors in one request
+		for i := 0; i < a.N; i++ {
+			c.AddError(errors.New(a.S + strconv.Itoa(i)))
+		}
 	case "setparam":
 		c.Params = rux.Params{a.S: a.V}
 	case "swapwriter":
